@@ -68,12 +68,14 @@ theorem kvLines_sim (o o' : Opts) (hq : o.quote = o'.quote) (level al al' : Nat)
     · exact ih
     · split
       · exact Sim.error _
-      · simp only [Sim] at ih ⊢
-        cases attrComment c k with
-        | error e => rfl
-        | ok cm =>
-          simp only [bind, Except.bind]
-          cases h1 : kvLines o level al c r <;> cases h2 : kvLines o' level al' c r <;> simp_all [Except.map, pure, Except.pure, contents_cons, content]
+      · split
+        · exact Sim.error _
+        · simp only [Sim] at ih ⊢
+          cases attrComment c k with
+          | error e => rfl
+          | ok cm =>
+            simp only [bind, Except.bind]
+            cases h1 : kvLines o level al c r <;> cases h2 : kvLines o' level al' c r <;> simp_all [Except.map, pure, Except.pure, contents_cons, content]
 
 theorem Sim.map_wrap {a b : Res (List Line)} (h : Sim a b) (pre pre' post post' : List Line)
     (hpre : contents pre = contents pre') (hpost : contents post = contents post') :
